@@ -228,7 +228,9 @@ def ast_parse_select_expression_to_column_infos(select_expression):
         raise RbqlParsingError('Unable to parse SELECT expression (error code #119): "{}"'.format(select_expression)) # This can be triggered with `SELECT a = 100`
     root = children[0]
     if isinstance(root, ast.Tuple):
-        column_expression_trees = root.elts
+        # Parse it again inside brackets, exactly as it is evaluated: a single parenthesized tuple column e.g. `(a1, a2)` stays one element there, while a list of columns is split
+        bracketed_root = ast.parse('[' + select_expression + ']').body[0].value
+        column_expression_trees = bracketed_root.elts
         column_infos = [column_info_from_node(ct) for ct in column_expression_trees]
     else:
         column_infos = [column_info_from_node(root)]
